@@ -1,6 +1,6 @@
 """Replay a recorded counterexample against the real, unshimmed library in this (fresh) interpreter.
-usage: python -m vtlib.replay <replay file>     exit 1 = reproduced (violation), 4 = reproduced a listed known
-finding, 0 = not reproduced"""
+usage: python -m vtlib.replay <replay file>     exit 10 = reproduced (violation), 14 = reproduced a listed known
+finding, 0 = not reproduced, anything else = the replay itself failed"""
 import importlib
 import json
 import sys
@@ -61,7 +61,7 @@ def replay(path, verbose=True):
 def main():
     verdict, detail = replay(sys.argv[1])
     print('REPLAY %s: %s' % (verdict, detail))
-    sys.exit(1 if verdict == 'violation' else (4 if verdict.startswith('known:') else 0))
+    sys.exit(10 if verdict == 'violation' else (14 if verdict.startswith('known:') else 0))
 
 
 if __name__ == '__main__':
